@@ -53,8 +53,9 @@ Qed.
 Section Chan.
 Context {B W ST : Type}.
 Variable wi : wire B W.
+Variable qcap : Z.   (* any queue capacity *)
 
-Notation broadcast := (broadcast wi).
+Notation broadcast := (broadcast wi qcap).
 Notation oversized_w := (oversized_w wi).
 
 (* size_routing: the sender is chosen by the encoded size against exactly MaxGossipPacketSize/2 *)
@@ -69,15 +70,15 @@ Qed.
 Lemma broadcast_oversized c b w :
   wrap wi (ch_key c) b = Some w -> MaxGossipPacketSize / 2 < wlen wi w ->
   snd (broadcast c b) = [] /\
-  ((Z.of_nat (length (ch_queue c)) < oversize_queue_cap /\
+  ((Z.of_nat (length (ch_queue c)) < qcap /\
     ch_queue (fst (broadcast c b)) = ch_queue c ++ [w] /\ ch_dropped (fst (broadcast c b)) = ch_dropped c)
    \/
-   (oversize_queue_cap <= Z.of_nat (length (ch_queue c)) /\
+   (qcap <= Z.of_nat (length (ch_queue c)) /\
     ch_queue (fst (broadcast c b)) = ch_queue c /\ ch_dropped (fst (broadcast c b)) = ch_dropped c + 1)).
 Proof.
   intros Hw Hl. unfold Gossip.broadcast. rewrite Hw. unfold Gossip.oversized_w, oversized_len.
   destruct (_ <? wlen wi w) eqn:E; [|lia].
-  destruct (Z.of_nat (length (ch_queue c)) <? oversize_queue_cap) eqn:Q; cbn; (split; [reflexivity|]).
+  destruct (Z.of_nat (length (ch_queue c)) <? qcap) eqn:Q; cbn; (split; [reflexivity|]).
   - left. split; [lia|]. split; reflexivity.
   - right. split; [lia|]. split; reflexivity.
 Qed.
@@ -140,7 +141,7 @@ Proof.
   unfold pending. destruct a as [b|e|]; cbn [cact_step taken offered_over].
   - unfold Gossip.broadcast. destruct (wrap wi _ b) as [w|]; [|cbn; lia].
     destruct (oversized_w w); [|cbn; lia].
-    destruct (_ <? oversize_queue_cap); cbn; rewrite ?app_length; cbn; lia.
+    destruct (_ <? qcap); cbn; rewrite ?app_length; cbn; lia.
   - destruct (worker_take e c) as [[c' evs]|] eqn:T; [|cbn; lia].
     apply worker_take_all_peers in T as (w & q & Hq & Hq' & _ & _ & Hd). cbn [fst].
     rewrite Hq, Hq', Hd. cbn [length]. lia.
@@ -163,12 +164,12 @@ Qed.
 Lemma cact_step_dropped c a :
   ch_dropped (fst (cact_step c a)) = ch_dropped c \/
   (ch_dropped (fst (cact_step c a)) = ch_dropped c + 1 /\ offered_over c a = 1 /\
-   oversize_queue_cap <= Z.of_nat (length (ch_queue c)) /\ ch_queue (fst (cact_step c a)) = ch_queue c).
+   qcap <= Z.of_nat (length (ch_queue c)) /\ ch_queue (fst (cact_step c a)) = ch_queue c).
 Proof.
   destruct a as [b|e|]; cbn [cact_step offered_over].
   - unfold Gossip.broadcast. destruct (wrap wi _ b) as [w|]; [|left; reflexivity].
     destruct (oversized_w w); [|left; reflexivity].
-    destruct (_ <? oversize_queue_cap) eqn:Q; cbn; [left; reflexivity|right]. repeat split; lia.
+    destruct (_ <? qcap) eqn:Q; cbn; [left; reflexivity|right]. repeat split; lia.
   - left. unfold worker_take. destruct (ch_busy c); [reflexivity|]. destruct (ch_queue c); reflexivity.
   - left. unfold worker_done. destruct (ch_busy c) as [[? ?]|]; reflexivity.
 Qed.
@@ -201,7 +202,7 @@ Proof.
         + assert (Hwb : wrapped_of (ch_key c) (bs0 ++ [b]) w).
           { exists b. split; [apply in_or_app; right; left; reflexivity|exact Hw]. }
           destruct (oversized_w w).
-          * destruct (_ <? oversize_queue_cap); injection E1 as <- <-; cbn; (split; [constructor|]).
+          * destruct (_ <? qcap); injection E1 as <- <-; cbn; (split; [constructor|]).
             -- apply Forall_app. split; [eapply Forall_impl; [exact HQ|exact Hmono]|constructor; [exact Hwb|constructor]].
             -- eapply Forall_impl; [exact HQ|exact Hmono].
           * injection E1 as <- <-. split; [constructor; [exact Hwb|constructor]|].
